@@ -150,6 +150,27 @@ def qparams_prepareable(model):
   return pr
 
 
+def fc_shapes_consistent(model):
+  """FULLY_CONNECTED as the kernel's Prepare demands it: a rank-2 filter whose
+  second extent is the input's last extent."""
+  pr = []
+  for si, sg in enumerate(model.subgraphs):
+    for oi, op in enumerate(sg.operators):
+      if model.operatorCodes[op.opcodeIndex].builtinCode != \
+          BO.FULLY_CONNECTED or len(op.inputs) < 2:
+        continue
+      x, w = sg.tensors[op.inputs[0]], sg.tensors[op.inputs[1]]
+      ws = [int(v) for v in (w.shape if w.shape is not None else [])]
+      xs = [int(v) for v in (x.shape if x.shape is not None else [])]
+      if len(ws) != 2:
+        pr.append(f'sg{si} op {oi}: FULLY_CONNECTED filter {tname(w)!r} has '
+                  f'rank {len(ws)}')
+      elif xs and xs[-1] != ws[1]:
+        pr.append(f'sg{si} op {oi}: FULLY_CONNECTED filter {ws} does not '
+                  f'match input {xs}')
+  return pr
+
+
 def _code(model, op):
   return model.operatorCodes[op.opcodeIndex].builtinCode
 
